@@ -105,12 +105,18 @@ type Schema struct {
 }
 
 func NewSchemaRef(schema *openapi3.SchemaRef, components Sourcer[Schema], opts SchemaOptions) (Ref[Schema], error) {
+	if schema == nil {
+		return nil, fmt.Errorf("schema is not defined")
+	}
 	if schema.Ref != "" {
 		v, ok := components.Get(schema.Ref)
 		if !ok {
 			return nil, fmt.Errorf("%q: not found in components", schema.Ref)
 		}
 		return NewRef[Schema](v), nil
+	}
+	if schema.Value == nil {
+		return nil, fmt.Errorf("schema is empty")
 	}
 	return NewSchema(schema.Value, components, opts)
 }
